@@ -129,7 +129,85 @@ Section ConfigEntries.
     intros [x Ex]. rewrite Ex. destruct (graph_ok _ _); [|discriminate]. intros _ Heq.
     apply (f_equal (fun t => cfg t !! k)) in Heq. cbn in Heq. rewrite lookup_delete in Heq. congruence.
   Qed.
+  (* ---------- the RPC endpoints (what a client of ConfigEntry.Apply / Delete is told) ---------- *)
+  Definition rcmd (c : ureq) : cmd := RpcCfgApply true (u_key c) (u_content c) (u_status c) (u_cidx c).
+  Definition rwrite (c : ureq) (s : st) : attempt := ensure_cfg graph_ok (u_idx c) false (u_key c) (u_content c) 0 s.
+  Definition W_rpc_cfg_upsert : cond_write st ureq :=
+    CW (fun s c => (apply graph_ok (u_idx c) (rcmd c) s).1)
+       (fun s c => is_true (apply graph_ok (u_idx c) (rcmd c) s).2)
+       (fun s c => expect ce_modify (cfg s !! u_key c) (u_cidx c))
+       (fun s c => att_ok (rwrite c s))
+       (fun s c => att_state (rwrite c s) s).
+  Definition rpc_skipped (s : st) (c : ureq) : bool := rpc_skip_upsert (u_key c) (u_content c) (u_status c) s.
+
+  (* unless the endpoint short-circuits, the reply is the FSM command's, which is honest *)
+  Theorem rpc_cfg_upsert_partial : honest_on (fun s c => rpc_skipped s c = false) W_rpc_cfg_upsert.
+  Proof.
+    split; intros s [idx k content status cidx ws] Hs; unfold rpc_skipped in Hs; cbn in Hs;
+      unfold W_rpc_cfg_upsert, rcmd, rwrite; cbn; rewrite Hs; unfold ensure_cfg_cas;
+      destruct (cfg s !! k) as [x|] eqn:Ek; crush;
+      try (destruct (ensure_cfg _ _ _ _ _ _ _); crush).
+  Qed.
+
+  (* the short-circuit: equal content is answered "true" whatever index was supplied; nothing is
+     written (and nothing needs to be: the stored entry already has the submitted content) *)
+  Theorem rpc_cfg_upsert_skip s c :
+    rpc_skipped s c = true ->
+    apply graph_ok (u_idx c) (rcmd c) s = (s, RBool true) /\
+    exists x, cfg s !! u_key c = Some x /\ ce_content x = u_content c.
+  Proof.
+    destruct c as [idx k content status cidx ws]. unfold rpc_skipped, rcmd; cbn. intros Hs. rewrite Hs.
+    split; [reflexivity|]. unfold rpc_skip_upsert in Hs. destruct (cfg s !! k) as [x|]; [|discriminate].
+    exists x. split; [reflexivity|]. crush.
+  Qed.
+
+  Record rdreq := RDReq { rd_idx : N; rd_key : ckey; rd_cidx : N }.
+  Definition W_rpc_cfg_delete : cond_write st rdreq :=
+    CW (fun s c => (apply graph_ok (rd_idx c) (RpcCfgDelete true (rd_key c) (rd_cidx c)) s).1)
+       (fun s c => is_true (apply graph_ok (rd_idx c) (RpcCfgDelete true (rd_key c) (rd_cidx c)) s).2)
+       (fun s c => match cfg s !! rd_key c with Some x => bool_decide (ce_modify x = rd_cidx c) | None => false end)
+       (fun s c => att_ok (delete_cfg graph_ok (rd_idx c) (rd_key c) s))
+       (fun s c => att_state (delete_cfg graph_ok (rd_idx c) (rd_key c) s) s).
+
+  Theorem rpc_cfg_delete_partial : honest_on (fun s c => is_Some (cfg s !! rd_key c)) W_rpc_cfg_delete.
+  Proof.
+    split; intros s [idx k cidx] [x Hx]; cbn in Hx; unfold W_rpc_cfg_delete; cbn; unfold rpc_skip_delete, delete_cfg_cas;
+      rewrite Hx; rewrite bool_decide_eq_true_2 by (eexists; reflexivity); cbn; crush;
+      try (unfold delete_cfg in *; rewrite Hx in *; destruct (graph_ok _ _); crush).
+  Qed.
+
+  (* an absent entry: Deleted = true for every supplied index -- the KV convention, the opposite of
+     the store method underneath (cfg_delete_reports_removal) *)
+  Theorem rpc_cfg_delete_absent s c :
+    cfg s !! rd_key c = None ->
+    apply graph_ok (rd_idx c) (RpcCfgDelete true (rd_key c) (rd_cidx c)) s = (s, RBool true).
+  Proof.
+    destruct c as [idx k cidx]; cbn. intros Hn. unfold rpc_skip_delete. rewrite Hn.
+    rewrite bool_decide_eq_false_2 by (intros [? ?]; discriminate). reflexivity.
+  Qed.
 End ConfigEntries.
+
+(* the two refutations, on concrete states *)
+Definition rpc_witness_state : st := (apply (fun _ _ => true) 5 (CfgUpsert ("service-defaults", "web") 1) st0).1.
+Definition rpc_witness_cmd : ureq := UReq 9 ("service-defaults", "web") 1 0 3 false.   (* expects index 3; the entry is at 5 *)
+
+Theorem rpc_cfg_upsert_refuted :
+  let W := W_rpc_cfg_upsert (fun _ _ => true) in
+  cw_ok W rpc_witness_state rpc_witness_cmd = true /\ cw_matched W rpc_witness_state rpc_witness_cmd = false /\
+  cw_post W rpc_witness_state rpc_witness_cmd = rpc_witness_state.
+Proof. repeat split; vm_compute; reflexivity. Qed.
+
+Theorem rpc_cfg_upsert_not_honest : ~ honest (W_rpc_cfg_upsert (fun _ _ => true)).
+Proof.
+  intros [H _ _]. destruct rpc_cfg_upsert_refuted as (Hok & Hm & _).
+  apply (H _ _ I) in Hok as [Hm' _]. cbv zeta in Hm. congruence.
+Qed.
+
+Theorem rpc_cfg_delete_not_honest : ~ honest (W_rpc_cfg_delete (fun _ _ => true)).
+Proof.
+  intros [H _ _]. specialize (H st0 (RDReq 5 ("service-defaults", "web") 3) I). cbn in H.
+  destruct H as [H _]. destruct (H eq_refl) as [Hm _]. discriminate Hm.
+Qed.
 
 (* ================= CA configuration ================= *)
 Record careq := CAReq { ca_idx : N; ca_cluster : string; ca_provider : N; ca_cidx : N }.
@@ -165,6 +243,12 @@ Proof.
   destruct c as [idx cl pr cidx]. unfold W_ca_config; cbn.
   unfold ca_check_and_set_config, ca_check_index; destruct (ca_config s); crush.
 Qed.
+
+(* DEVIATION made explicit: at the FSM an expected index of zero is not "must be absent" (as it is for
+   the same entity inside the composite command) but "no check": a stored configuration is overwritten *)
+Theorem ca_config_zero_overwrites s cl pr idx :
+  apply (fun _ _ => true) idx (CASetConfig cl pr 0) s = (ca_set_config_txn idx cl pr s, RNil).
+Proof. reflexivity. Qed.
 
 Theorem ca_config_effective s c :
   (forall x, ca_config s = Some x -> cc_modify x < ca_idx c) -> effective W_ca_config s c.
@@ -566,6 +650,15 @@ Section Bounded.
       destruct status as [sp|]; [|discriminate]. destruct (negb _ || negb _); [discriminate|].
       destruct policy as [pp|]; [|destruct (fg_policy s) eqn:Ep; [|discriminate]]; got;
         bsplit Hb; repeat split; try assumption; cbn; try lia; try (rewrite Ep; assumption).
+    - destruct (rpc_skip_upsert _ _ _ _); cbn [fst]; [assumption|]. destruct cas.
+      + apply bool_result_bounded; [assumption|]. intros s'. apply ensure_cfg_cas_bounded; assumption.
+      + destruct (ensure_cfg graph_ok idx false k content 0 s) eqn:E; cbn [fst]; try assumption.
+        eapply ensure_cfg_bounded; eassumption.
+    - destruct (rpc_skip_delete _ _); cbn [fst]; [assumption|]. destruct cas.
+      + apply bool_result_bounded; [assumption|]. intros s'. unfold delete_cfg_cas.
+        destruct (cfg s !! k); [|discriminate]. destruct (negb _); [discriminate|]. apply delete_cfg_bounded; assumption.
+      + destruct (delete_cfg graph_ok idx k s) eqn:E; cbn [fst]; try assumption.
+        eapply delete_cfg_bounded; eassumption.
   Qed.
 
   (* the log Raft feeds the FSM: strictly increasing indexes *)
